@@ -20,6 +20,9 @@ var vpRateGrid = []vpRateParams{
 	{"0.5", "0", "0.000000000000000001", "10", "0", "0", "0", "0"},
 	{"0.999999999999999999", "10", "10", "10", "1", "2", "3", "1"},
 	{"0.000000000000000001", "0.05", "0", "0.5", "0.07", "0.3", "0.9", "0.999999999999999999"},
+	// a stable curve far above the variable one with a small reserve factor: a lend rate derived from the stable curve
+	// would exceed the variable borrow rate (seed c18-lend-rate-from-stable-curve)
+	{"0.8", "0.002", "0.06", "0.6", "0.2", "0.04", "1", "0.1"},
 }
 
 // vpRateWorld seeds (closed world) one asset, its rate parameters from the grid, and one pool whose cash balance and
